@@ -64,6 +64,11 @@ class Canaries:
             win = b[i:i + 8]
             if len(set(win)) < 4:
                 continue                      # constant runs (padding, ASN.1 filler) are not evidence
+            # 8-byte words as decimal numbers (4-byte words would collide with time stamps and counters)
+            for order in ('big', 'little'):
+                n = int.from_bytes(win, order)
+                if n >= 10 ** 15:
+                    self.needles.append((kind, 'fragment-integer', str(n), False))
             self.needles.append((kind, 'fragment-raw', win.decode('latin-1'), False))
             self.needles.append((kind, 'fragment-hex', win.hex(), True))
             r = repr(win)[2:-1]
@@ -79,7 +84,8 @@ class Canaries:
                ('repr', repr(p)[2:-1], False),
                ('declist', ', '.join(str(x) for x in p), False), ('declist', ','.join(str(x) for x in p), False),
                ('declist', ' '.join(str(x) for x in p), False),
-               ('integer', str(int.from_bytes(p, 'big')), False), ('integer', str(int.from_bytes(p, 'little')), False)]
+               ('integer', str(int.from_bytes(p, 'big')), False), ('integer', str(int.from_bytes(p, 'little')), False),
+               ('octal', oct(int.from_bytes(p, 'big'))[2:], False), ('binary', bin(int.from_bytes(p, 'big'))[2:], False)]
         try:
             out.append(('utf8', p.decode('utf-8'), False))
         except UnicodeDecodeError:
@@ -222,6 +228,8 @@ class World:
         self.pool = {}          # kind -> [uid]
         self.secret = {}        # uid -> bytes
         self.version = (1, 2)
+        self.auth_kind = hist.get('auth')     # None | 'password' | 'device' | 'attestation': credential in every request header
+        self._auth = {}
         self.written = []       # (step, variant, requested level, text of the server's own log file)
         self.level_checks = []  # effective logger levels read back after KmipServer start-up
         self.scratch = []       # temporary paths (masked in the secret-swap comparison)
@@ -244,10 +252,37 @@ class World:
             finally:
                 self.records = [record_dict(r, self.ctx.repo) for r in cap.raw]
 
+    def header_auth(self, kind=None):
+        """Authentication header of the given credential type, every secret-ish field a canary (made once per world)."""
+        kind = kind or self.auth_kind
+        if kind is None:
+            return None
+        if kind not in self._auth:
+            C = lambda k, n, text=True: self.can.new('credential:' + k, n, text=text)
+            if kind == 'password':
+                cv = cobjects.UsernamePasswordCredential(username='carol', password=C('password', 20).decode())
+                ct = enums.CredentialType.USERNAME_AND_PASSWORD
+            elif kind == 'device':
+                cv = cobjects.DeviceCredential(device_serial_number='serial-0001', password=C('device-password', 24).decode(),
+                                               device_identifier='device-7', network_identifier='net-3',
+                                               machine_identifier='machine-9', media_identifier='media-2')
+                ct = enums.CredentialType.DEVICE
+            else:
+                cv = cobjects.AttestationCredential(
+                    nonce=cobjects.Nonce(nonce_id=C('nonce-id', 16, False), nonce_value=C('nonce-value', 24, False)),
+                    attestation_type=enums.AttestationType.TPM_QUOTE,
+                    attestation_measurement=C('attestation-measurement', 32, False),
+                    attestation_assertion=C('attestation-assertion', 32, False))
+                ct = enums.CredentialType.ATTESTATION
+            self._auth[kind] = contents.Authentication(credentials=[cobjects.Credential(credential_type=ct, credential_value=cv)])
+        return self._auth[kind]
+
     # ------------------------------------------------------------------ engine requests
     def req(self, items, label=None, **kw):
         kw.setdefault('version', self.version)
         kw.setdefault('user', self.user)
+        if self.auth_kind is not None:
+            kw.setdefault('auth', self.header_auth())
         r = self.eng.request(items, **kw)
         step = len(self.trace)
         ent = {'step': step, 'ops': [it[0].name for it in items], 'label': label}
@@ -288,13 +323,24 @@ class World:
 def histories(tier, rng):
     import c20_atoms as A
     out = []
+    kinds = ['password', 'device', 'attestation']
+    k = 0
     for name, layer, atoms in A.CURATED:
         out.append({'name': name, 'layer': layer, 'atoms': list(atoms)})
+        if layer == 'engine':
+            # the same operations with a credential in every request header: quick = one credential type per history
+            # (rotating, so that every type is used several times), thorough = every type for every history
+            for kind in (kinds if tier != 'quick' else [kinds[k % 3]]):
+                out.append({'name': '%s+%s' % (name, kind), 'layer': layer, 'atoms': list(atoms), 'auth': kind})
+            k += 1
     n_random = 6 if tier == "quick" else 100
     eng_atoms = [a for a in A.ENGINE_ATOMS]
     for k in range(n_random):
         seq = ['setup_keys'] + [rng.choice(eng_atoms) for _ in range(rng.randint(6, 14))]
         out.append({'name': 'random-%d:%s' % (k, ','.join(seq)), 'layer': 'engine', 'atoms': seq})
+        if k % 2:
+            out[-1]['auth'] = kinds[(k // 2) % 3]
+            out[-1]['name'] = 'random-%d+%s:%s' % (k, out[-1]['auth'], ','.join(seq))
     return out
 
 
@@ -303,9 +349,15 @@ def history_by_name(name):
     for n, layer, atoms in A.CURATED:
         if n == name:
             return {'name': n, 'layer': layer, 'atoms': list(atoms)}
+        for kind in ('password', 'device', 'attestation'):
+            if name == '%s+%s' % (n, kind):
+                return {'name': name, 'layer': layer, 'atoms': list(atoms), 'auth': kind}
     if name.startswith('random-'):
-        seq = name.split(':', 1)[1].split(',')
-        return {'name': name, 'layer': 'engine', 'atoms': seq}
+        head, seq = name.split(':', 1)
+        h = {'name': name, 'layer': 'engine', 'atoms': seq.split(',')}
+        if '+' in head:
+            h['auth'] = head.split('+', 1)[1]
+        return h
     raise KeyError(name)
 
 
